@@ -347,6 +347,10 @@ func (g *zgen) moduleProgram(sc *c11Scenario) {
 		if g.t.Draw(3) == 0 {
 			body = append(body, fmt.Sprintf("定义货物%d：\n\t其名 = “货”\n", m))
 		}
+		if g.t.Draw(5) == 4 {
+			// a module that imports a library itself (its exports stay private to the module)
+			body = append([]string{"导入《" + pick(g.t, []string{"@JSON", "@文件", "@共甲"}) + "》\n"}, body...)
+		}
 		sc.Modules[name] = strings.Join(body, "\n")
 		if g.t.Draw(4) == 0 {
 			imports = append(imports, fmt.Sprintf("导入“%s”的%s", name, strings.Join(names[:1+g.t.Draw(len(names))], "、")))
@@ -364,6 +368,11 @@ func (g *zgen) moduleProgram(sc *c11Scenario) {
 		imports = append(imports, "导入《@共甲》", "导入《@共乙》")
 	case 4:
 		imports = append(imports, "导入《@共乙》", "导入《@文件》", "导入《@共甲》")
+	}
+	// the textual order of the imports is drawn too (libraries before, between, after modules)
+	for a := len(imports) - 1; a > 0; a-- {
+		b := a - g.t.Draw(a+1)
+		imports[a], imports[b] = imports[b], imports[a]
 	}
 	var lines []string
 	lines = append(lines, imports...)
